@@ -144,3 +144,21 @@ func TestWitnessLastBindingsIsPlainData(t *testing.T) {
 		t.Fatalf("bindings branching on lastBindings: %d matches in memory, %d after a JSON round trip", len(inMemory), len(afterReload))
 	}
 }
+
+// Witness for core.(*Spec).Walk#makeslice-len (C07, "all control settings"):
+// a negative step limit.
+func TestWitnessWalkNegativeLimit(t *testing.T) {
+	s := failingSpec(t)
+	defer func() {
+		if r := recover(); r != nil {
+			t.Fatalf("Walk crashed: %v", r)
+		}
+	}()
+	w, err := s.Walk(context.Background(), &State{NodeName: "start", Bs: match.NewBindings()}, []interface{}{"m"}, &Control{Limit: -1}, nil)
+	if err != nil {
+		t.Fatal(err)
+	}
+	if len(w.Strides) != 0 || w.StoppedBecause != Limited || len(w.Remaining) != 1 {
+		t.Fatalf("a walk with a negative limit took %d steps, stopped because %v, %d remaining", len(w.Strides), w.StoppedBecause, len(w.Remaining))
+	}
+}
